@@ -58,6 +58,11 @@ fn run_body(cell: &ScriptCell) -> (bool, bool) {
     for (k, iop) in inner.iter().enumerate() {
         let r = node_id(s.idx, Some(k));
         sim::log_ev(sim::K_SUBOP_BEGIN, r as u64, 0);
+        if matches!(iop, Op::BodyPanic) {
+            sim::log_ev(sim::K_SUBOP_END, r as u64, 0);
+            ctx.inner_rets.push((r, Ret::None));
+            std::panic::resume_unwind(Box::new(ScriptPanic));
+        }
         let ret = exec_op(ctx, s.idx, r, iop, &[]);
         sim::log_ev(sim::K_SUBOP_END, r as u64, 0);
         ctx.inner_rets.push((r, ret));
@@ -79,6 +84,23 @@ macro_rules! drop_held {
 drop_held!(ScriptedFuture);
 drop_held!(ScriptedStream);
 drop_held!(ScriptedSink);
+
+/// the payload of a scripted body's panic
+pub struct ScriptPanic;
+
+/// a combinator that contains a panic of the future it wraps (like a task supervisor would)
+pub struct CatchPanic(Pin<Box<dyn Future<Output = ()>>>);
+impl Future for CatchPanic {
+    type Output = ();
+    fn poll(self: Pin<&mut Self>, cx: &mut Context<'_>) -> Poll<()> {
+        let inner = &mut self.get_mut().0;
+        match std::panic::catch_unwind(std::panic::AssertUnwindSafe(|| inner.as_mut().poll(cx))) {
+            Ok(p) => p,
+            Err(e) if e.is::<ScriptPanic>() => Poll::Pending,
+            Err(e) => std::panic::resume_unwind(e),
+        }
+    }
+}
 
 pub struct ScriptedFuture(Arc<ScriptCell>);
 impl Future for ScriptedFuture {
@@ -172,6 +194,9 @@ pub fn new_task(case: &Case, op: OpRef, wrap: &Wrap, span: Option<Span>) -> Task
         Wrap::EnterOnPoll => TaskObj::Fut(Box::pin(ScriptedFuture(cell.clone()).enter_on_poll(name))),
         Wrap::InSpanEnterOnPoll => TaskObj::Fut(Box::pin(
             ScriptedFuture(cell.clone()).enter_on_poll(name).in_span(span.unwrap_or_default()),
+        )),
+        Wrap::InSpanCatch => TaskObj::Fut(Box::pin(
+            CatchPanic(Box::pin(ScriptedFuture(cell.clone()).enter_on_poll(name))).in_span(span.unwrap_or_default()),
         )),
         Wrap::Stream => {
             use fastrace_futures::StreamExt;
